@@ -252,12 +252,16 @@ HTTPRef(m, cfg) ==
 (* modes (standard / romon), username.                                     *)
 (***************************************************************************)
 WBMsgs == { m \in [ulen : {1, 5, 219, 221, 222, 255}, romon : BOOLEAN, parity : {0, 1, 2}, type : {6, 5}, delim : {"ok", "missing", "last"}] : m.romon => m.ulen <= 222 }
-WBCfgs == [modes : {<<>>, <<"standard">>, <<"romon">>}, username : {"", "admin"}]
+\* username and username_regexp are mutually exclusive; the patterns are restated below (matched against the
+\* user name WITHOUT the RoMON suffix)
+WBCfgs == { c \in [modes : {<<>>, <<"standard">>, <<"romon">>}, username : {"", "admin"}, regexp : {"", "^admin$", "n$", "^a+$"}] : c.username = "" \/ c.regexp = "" }
+WBRegexp(re, ulen) == CASE re = "" -> TRUE [] re \in {"^admin$", "n$"} -> ulen = 5 [] re = "^a+$" -> ulen # 5
 \* the username is "admin" when ulen = 5, otherwise ulen letters; RoMON appends "+r" (part of the length)
 WBRef(m, cfg) ==
   IF /\ m.type = 6 /\ m.delim = "ok" /\ m.parity <= 1
      /\ (cfg.modes = <<>> \/ (m.romon /\ "romon" \in Range(cfg.modes)) \/ (~m.romon /\ "standard" \in Range(cfg.modes)))
      /\ (cfg.username = "" \/ m.ulen = 5)
+     /\ WBRegexp(cfg.regexp, m.ulen)
   THEN "Y" ELSE "N"
 
 (***************************************************************************)
@@ -303,35 +307,39 @@ TLSRef(m, cfg) == IF m.kind # "hello" THEN "N"
 (* metadata, "corrupt" = tag bit flipped, "badlen" = wrong length field).  *)
 (***************************************************************************)
 OVBase(mode) == [mode |-> mode, opcode |-> "ok", keyid |-> 0, session |-> "nonzero", digest |-> "sha256", rpid |-> "one", ts |-> "now",
-                 acks |-> 0, pid |-> 0, sig |-> "a", lenfield |-> "exact", wk |-> "ok"]
+                 acks |-> 0, pid |-> 0, sig |-> "a", lenfield |-> "exact", wk |-> "ok", pad |-> 0]
 OVDom == [opcode |-> {"ok", "swapped", "other"}, keyid |-> {0, 1}, session |-> {"nonzero", "zero"},
           digest |-> {"md5", "sha1", "sha256", "sha512", "sha3-256", "bad"}, rpid |-> {"one", "two", "early"}, ts |-> {"now", "old", "future"},
           acks |-> {0, 1}, pid |-> {0, 1}, sig |-> {"a", "q1", "b", "corrupt"}, lenfield |-> {"exact", "short", "long", "zero"},
-          wk |-> {"ok", "meta", "corrupt", "badlen"}]
-OVRel(mode, net) == (CASE mode = "plain" -> {"opcode", "keyid", "session", "acks", "pid"}
-                       [] mode = "auth" -> {"opcode", "keyid", "session", "acks", "pid", "digest", "rpid", "ts", "sig"}
-                       [] mode = "crypt" -> {"opcode", "keyid", "session", "acks", "pid", "rpid", "ts", "sig"}
-                       [] mode = "crypt2" -> {"opcode", "keyid", "session", "acks", "pid", "rpid", "ts", "sig", "wk"})
+          wk |-> {"ok", "meta", "corrupt", "badlen"},
+          pad |-> {0, 3}]          \* bytes appended inside the message (the TCP length field counts them): no mode has such a message
+OVRel(mode, net) == (CASE mode = "plain" -> {"opcode", "keyid", "session", "acks", "pid", "pad"}
+                       [] mode = "auth" -> {"opcode", "keyid", "session", "acks", "pid", "digest", "rpid", "ts", "sig", "pad"}
+                       [] mode = "crypt" -> {"opcode", "keyid", "session", "acks", "pid", "rpid", "ts", "sig", "pad"}
+                       [] mode = "crypt2" -> {"opcode", "keyid", "session", "acks", "pid", "rpid", "ts", "sig", "wk", "pad"})
                     \cup (IF net = "tcp" THEN {"lenfield"} ELSE {})
 \* all records obtained from b by changing at most n of the fields F to another value of their domain D
 Devs(b, F, D, n) == LET step(S) == S \cup UNION { UNION { { [x EXCEPT ![f] = y] : y \in D[f] } : f \in F } : x \in S } IN
                     IF n = 0 THEN {b} ELSE IF n = 1 THEN step({b}) ELSE step(step({b}))
 OVMsgs(mode, net, n) == { m \in Devs(OVBase(mode), OVRel(mode, net), OVDom, n) : (m.sig = "q1" => mode = "auth") }
 
+\* via: the keys are given inline (group_key, server_key, client_keys) or as files (group_key_file, server_key_file,
+\* client_key_files) - documented as the same keys
 OVCfgBase == [modes |-> <<>>, ignore_timestamp |-> FALSE, ignore_crypto |-> FALSE, group_key |-> "none", auth_digest |-> "", direction |-> "",
-              server_key |-> "none", client_keys |-> "none"]
+              server_key |-> "none", client_keys |-> "none", via |-> "inline"]
 OVCfgDom == [modes |-> {<<>>, <<"plain">>, <<"auth">>, <<"crypt">>, <<"crypt2">>, <<"AUTH", "Crypt", "crypt2">>, <<"plain", "CRYPT2">>},
              ignore_timestamp |-> BOOLEAN, ignore_crypto |-> BOOLEAN, group_key |-> {"none", "k1", "k2"},
              auth_digest |-> {"", "sha1", "sha256", "sha3-256"}, direction |-> {"", "normal", "inverse", "bidi"},
-             server_key |-> {"none", "s1", "s2"}, client_keys |-> {"none", "c1", "c2"}]
+             server_key |-> {"none", "s1", "s2"}, client_keys |-> {"none", "c1", "c2"}, via |-> {"inline", "file"}]
 OVCfgRel(mode) == CASE mode = "plain" -> {"modes"}
-                    [] mode = "auth" -> {"modes", "ignore_timestamp", "ignore_crypto", "group_key", "auth_digest", "direction"}
-                    [] mode = "crypt" -> {"modes", "ignore_timestamp", "ignore_crypto", "group_key", "direction"}
-                    [] mode = "crypt2" -> {"modes", "ignore_timestamp", "ignore_crypto", "server_key", "client_keys"}
+                    [] mode = "auth" -> {"modes", "ignore_timestamp", "ignore_crypto", "group_key", "auth_digest", "direction", "via"}
+                    [] mode = "crypt" -> {"modes", "ignore_timestamp", "ignore_crypto", "group_key", "direction", "via"}
+                    [] mode = "crypt2" -> {"modes", "ignore_timestamp", "ignore_crypto", "server_key", "client_keys", "via"}
 \* baselines: no key material configured / the key material the primary signature uses
 OVCfgBases(mode) == {OVCfgBase} \cup (CASE mode = "plain" -> {}
-                                        [] mode \in {"auth", "crypt"} -> { [OVCfgBase EXCEPT !.group_key = "k1"] }
-                                        [] mode = "crypt2" -> { [OVCfgBase EXCEPT !.server_key = "s1"], [OVCfgBase EXCEPT !.client_keys = "c1"] })
+                                        [] mode \in {"auth", "crypt"} -> { [OVCfgBase EXCEPT !.group_key = "k1"], [OVCfgBase EXCEPT !.group_key = "k1", !.via = "file"] }
+                                        [] mode = "crypt2" -> { [OVCfgBase EXCEPT !.server_key = "s1"], [OVCfgBase EXCEPT !.client_keys = "c1"],
+                                                                [OVCfgBase EXCEPT !.server_key = "s1", !.via = "file"], [OVCfgBase EXCEPT !.client_keys = "c1", !.via = "file"] })
 \* a client key is only accepted at provisioning if it is wrapped under the configured server key
 OVCfgValid(c) == ~(c.server_key = "s1" /\ c.client_keys = "c2") /\ ~(c.server_key = "s2" /\ c.client_keys = "c1")
 OVCfgs(mode, n) == { c \in UNION { Devs(b, OVCfgRel(mode), OVCfgDom, n) : b \in OVCfgBases(mode) } : OVCfgValid(c) }
@@ -371,7 +379,7 @@ OVRef(m, cfg, net) ==
   \* rule the message out; where only the mode filter or the maximal V2 length (auth with a 64-byte HMAC) could, either is fine
   IF net = "tcp" /\ m.lenfield = "long" THEN (IF ~(m.opcode = "ok" /\ m.keyid = 0) THEN "N"
                                               ELSE IF modeOK /\ ~(m.mode = "auth" /\ m.digest = "sha512") THEN "M" ELSE "X")
-  ELSE IF ~(m.opcode = "ok" /\ m.keyid = 0 /\ m.session = "nonzero" /\ m.lenfield = "exact" /\ modeOK /\ tsOK /\ rpidOK) THEN "N"
+  ELSE IF ~(m.opcode = "ok" /\ m.keyid = 0 /\ m.session = "nonzero" /\ m.lenfield = "exact" /\ m.pad = 0 /\ modeOK /\ tsOK /\ rpidOK) THEN "N"
   ELSE IF open THEN "X"
   ELSE IF body THEN "Y" ELSE "N"
 
